@@ -3,6 +3,7 @@
    index only moves forward (C07).  Agreement across nodes is checked by the monitors on every
    hand-out and at commit time. *)
 From Coq Require Import List NArith.
+From RaftV Require LogMatching Safety SafetyEx.
 From RaftV Require Import Base Types Quorum Progress Tracker Storage Log Raft RawNode QuorumProofs RaftMono RaftRouting NodeProps PreVoteProofs LocalProofs FlowProofs LogProofs ConfProofs.
 Import ListNotations.
 Open Scope N_scope.
@@ -23,3 +24,45 @@ Theorem C01_commit_forward_only : forall st r m r' e,
 Proof. exact step_mono. Qed.
 Print Assumptions C01_commit_forward_only.
 
+
+
+(* ---------- protocol level (Spec/Safety.v) ---------- *)
+
+(* State Machine Safety for every execution of any network of nodes that obey the election and
+   replication rules the node model implements (Spec/Safety.v: one vote per term and only for
+   an up-to-date candidate; leadership on a majority of votes of that term; the leader appends
+   entries of its term; followers accept slices of a leadership's append-only log on a
+   (prev index, prev term) match; a leadership commits a position holding an entry of its own
+   term once a majority acknowledged a longer matching log in that term; a node hands position
+   j to its state machine on the authority of a leadership t <= its term that committed some
+   i >= j while its own log agrees with that leadership's log through j).  Messages may be
+   delayed, duplicated, reordered or lost.  [snd p] is the history of everything any node ever
+   handed out: any two hand-outs at the same position, at any two moments, by any two nodes,
+   carry the same entry.  Unbounded nodes, terms, log lengths and steps; static voter set [vs]
+   (membership change, snapshots and lost unacknowledged suffixes are outside this theorem and
+   stay with the monitors of the cluster harness). *)
+Theorem C01_state_machine_safety_protocol : forall vs p m1 m2 j x y,
+  Safety.areach vs p -> In (m1, j, x) (snd p) -> In (m2, j, y) (snd p) -> x = y.
+Proof. exact Safety.state_machine_safety. Qed.
+Print Assumptions C01_state_machine_safety_protocol.
+
+(* never replaced, reordered or dropped: what a node may treat as committed it may still treat
+   as committed, with the same value, after any further step of the network *)
+Theorem C01_committed_never_replaced : forall vs s s' m j t,
+  Safety.SInv vs s -> Safety.sstep vs s s' -> Safety.can_learn s m j t ->
+  Safety.can_learn s' m j t /\
+  (forall x, Safety.cval s j x -> Safety.cval s' j x) /\
+  (forall x y, Safety.cval s' j x -> Safety.cval s' j y -> x = y).
+Proof.
+  intros vs s s' m j t I S CL. split; [exact (Safety.can_learn_stable vs s s' m j t I S CL)|]. split.
+  - intros x. exact (Safety.cval_stable vs s s' j x I S).
+  - intros x y. exact (Safety.cval_unique vs s' j x y (Safety.sinv_step vs s s' I S)).
+Qed.
+Print Assumptions C01_committed_never_replaced.
+
+(* the premises are satisfiable: SafetyEx.safety_nonvacuous is an execution of three voters in
+   which two nodes hand out the committed entry *)
+Theorem C01_protocol_nonvacuous :
+  exists p, Safety.areach SafetyEx.vs3 p /\ In (1, 0%nat, (1, 7)) (snd p) /\ In (2, 0%nat, (1, 7)) (snd p).
+Proof. exact SafetyEx.safety_nonvacuous. Qed.
+Print Assumptions C01_protocol_nonvacuous.
